@@ -447,13 +447,14 @@ func checkC08(c *Ctx, r *Report) {
 			return isResultOfCall(strip2(v), 0, "(*math/big.Int).BitLen") != nil
 		}
 		retOf := func(errName string) []ssa.Instruction {
-			var out []ssa.Instruction
-			for _, ret := range returnsOf(f) {
-				if isGlobal(errName)(ret.Results[len(ret.Results)-1]) || isGlobal(errName)(retVal(ret, len(ret.Results)-1)) {
-					out = append(out, ret)
+			// (in f, or in a bounds-check helper extracted from it)
+			return findInstrs(f, func(in ssa.Instruction) bool {
+				ret, ok := in.(*ssa.Return)
+				if !ok || len(ret.Results) == 0 {
+					return false
 				}
-			}
-			return out
+				return isGlobal(errName)(ret.Results[len(ret.Results)-1]) || isGlobal(errName)(retVal(ret, len(ret.Results)-1))
+			})
 		}
 		big, small := retOf("ErrRsaKeyTooBig"), retOf("ErrRsaKeyTooSmall")
 		var okRets []ssa.Instruction
@@ -504,7 +505,7 @@ func checkC08(c *Ctx, r *Report) {
 			g := f
 			isLen := lenOfKey
 			var consts []ssa.Value
-			var identTargets func() (func(ssa.Instruction) bool, EdgePred)
+			var targetsOf func(k int64) (func(ssa.Instruction) bool, EdgePred)
 			if call, isCall := strip2(a[1]).(*ssa.Call); isCall && call.Call.StaticCallee() != nil && call.Call.StaticCallee().Blocks != nil {
 				h := call.Call.StaticCallee()
 				g = h
@@ -520,24 +521,21 @@ func checkC08(c *Ctx, r *Report) {
 					}
 					return false
 				}
-				var identRets []ssa.Instruction
 				for _, ret := range returnsOf(h) {
-					for _, l := range phiLeaves(ret.Results[0]) {
-						consts = append(consts, l)
-						if k, isC := constInt(l); isC && k == ident {
-							identRets = append(identRets, ret)
-						}
-					}
+					consts = append(consts, phiLeaves(ret.Results[0])...)
 				}
-				identTargets = func() (func(ssa.Instruction) bool, EdgePred) { return inSet(identRets), nil }
+				targetsOf = func(want int64) (func(ssa.Instruction) bool, EdgePred) {
+					ti, te, _ := sourcesWhere(resultSources(h, 0), func(s resSource) bool { return s.isK && s.konst == want })
+					return ti, te
+				}
 			} else {
 				consts = phiLeaves(a[1])
-				identTargets = func() (func(ssa.Instruction) bool, EdgePred) {
+				targetsOf = func(want int64) (func(ssa.Instruction) bool, EdgePred) {
 					if phi, ok := a[1].(*ssa.Phi); ok {
-						return nil, edgeSet(phiEdgesWhere(phi, func(v ssa.Value) bool { k, isC := constInt(v); return isC && k == ident }))
+						return nil, edgeSet(phiEdgesWhere(phi, func(v ssa.Value) bool { k, isC := constInt(v); return isC && k == want }))
 					}
-					// a constant algorithm: IDENTITY unconditionally is a violation, SHA2_256 is fine
-					if k, isC := constInt(a[1]); isC && k == ident {
+					// a constant algorithm: that algorithm unconditionally
+					if k, isC := constInt(a[1]); isC && k == want {
 						return func(in ssa.Instruction) bool { return in == sums[0].(ssa.Instruction) }, nil
 					}
 					return func(ssa.Instruction) bool { return false }, nil
@@ -552,10 +550,15 @@ func checkC08(c *Ctx, r *Report) {
 			}
 			r5.Check(okLeaves, "IDFromPublicKey: algorithm is SHA2_256 or IDENTITY", instrPos(sums[0].(ssa.Instruction)), 1, "", "", "")
 			{
-				tgt, tgtE := identTargets()
+				tgt, tgtE := targetsOf(ident)
 				w1, n1 := (&Cut{Fn: g, Target: tgt, TargetEdge: tgtE, EdgeCut: edgeBool(isInl, true)}).Run(c)
 				w2, n2 := (&Cut{Fn: g, Target: tgt, TargetEdge: tgtE, EdgeCut: edgeExcl(isLen, isMaxC, ordGT)}).Run(c)
 				r5.Check(w1 == "" && w2 == "", "IDFromPublicKey: IDENTITY only under AdvancedEnableInlining && len(b) <= maxInlineKeyLength", f.Pos(), n1+n2+1, "", "keys longer than the inline bound (or with inlining off) are embedded instead of hashed", w1+w2)
+				// ... and the converse: the hash is chosen only with inlining off or for a key longer than the bound (a key
+				// of exactly the bound is embedded: its ID must be the one every other implementation derives)
+				st, stE := targetsOf(sha)
+				w3, n3 := (&Cut{Fn: g, Target: st, TargetEdge: stE, EdgeCut: anyEdge(edgeBool(isInl, false), edgeExcl(isLen, isMaxC, ordLT, ordEQ))}).Run(c)
+				r5.Check(w3 == "", "IDFromPublicKey: SHA2_256 only with inlining off or len(b) > maxInlineKeyLength", f.Pos(), n3+1, "", "a key short enough to be embedded (at the bound itself) gets a hashed ID: the key cannot be recovered from the ID and the ID differs from the one other implementations derive", w3)
 			}
 			for _, ret := range successReturns(f) {
 				r5.Check(isResultOfCall(retVal(ret.(*ssa.Return), 0), 0, "github.com/multiformats/go-multihash.Sum") != nil, "IDFromPublicKey: returns ID(hash)", instrPos(ret), 1, "", "", "")
